@@ -153,7 +153,7 @@ def main(ctx):
               "client_open", "client_rejected", "token_strings", "url_cases", "segment_execs",
               "interop_pairs", "limit_sequences", "limit_rejected", "limit_admitted",
               "deferred_cases", "deferred_late_resolution", "deferred_client_cases",
-              "proxy_cases", "proxy_open", "proxy_refused", "proxy_timeout"):
+              "proxy_cases", "proxy_open", "proxy_refused", "proxy_timeout", "deferred_more_data"):
         ctx.require(n)
 
 
@@ -698,12 +698,15 @@ def _job_deferred(a, env):
     viol = []
     evals = 0
     seen = {}
-    events = ["resolve", "timeout", "peer-drop", "own-drop"]
+    # "more-data": the peer does not wait for the answer - the same complete request once more
+    # (a pipelining or retrying client) while the application is still deciding
+    events = ["resolve", "timeout", "peer-drop", "own-drop", "more-data"]
     for how in ("accept", "accept-proto", "deny", "fail"):
         for order in itertools.permutations(events, 3):
-            holder = {}
+            holder = {"n": 0}
 
             def connect(proto, request, _h=holder):
+                _h["n"] += 1
                 _h["f"] = txaio.create_future()
                 _h["req"] = request
                 return _h["f"]
@@ -734,6 +737,15 @@ def _job_deferred(a, env):
                     ep.conn.settle()
                 elif ev == "timeout":
                     ep.conn.advance(2.5)
+                elif ev == "more-data":
+                    if not ep.conn.lost and ep.t.reading():
+                        first_future = holder.get("f")
+                        ep.feed(build_request(REQUEST_LINES[0], BASE))
+                        ep.conn.settle()
+                        stats["deferred_more_data"] = stats.get("deferred_more_data", 0) + 1
+                        if not resolved and holder.get("f") is not first_future:
+                            # keep resolving the FIRST decision (the one the application is working on)
+                            holder["f2"], holder["f"] = holder["f"], first_future
                 elif ev == "peer-drop":
                     if not ep.conn.lost:
                         ep.conn.peer_drop(False)
@@ -742,6 +754,12 @@ def _job_deferred(a, env):
                     if ep.conn.own_drop_pending():
                         ep.conn.deliver_own_drop()
                         ep.conn.settle()
+            if holder.get("f2") is not None:
+                try:
+                    txaio.resolve(holder["f2"], None)
+                except Exception as e:
+                    ep.conn.escapes.append(e)
+                ep.conn.settle()
             evals += 1
             stats["deferred_cases"] += 1
             stats["cases"] += 1
@@ -758,6 +776,12 @@ def _job_deferred(a, env):
                 probs.append(("opened-after-connection-gone", "state=%s callbacks=%s" % (ep.state(), names)))
             if how in ("deny", "fail") and opened:
                 probs.append(("opened-although-denied", "state=%s callbacks=%s" % (ep.state(), names)))
+            if holder["n"] > 1:
+                probs.append(("onconnect-called-again", "onConnect was called %d times for one connection "
+                              "(a second request arrived while the first decision was pending)" % holder["n"]))
+            n101 = bytes(ep.t.written).count(b"HTTP/1.1 101")
+            if n101 > 1:
+                probs.append(("two-handshake-replies", "%d 101 responses written" % n101))
             if (ep.conn.lost or ep.t.calls) and ep.state() not in (0,):
                 probs.append(("state-not-closed-after-drop", "state=%s calls=%s lost=%s" % (
                     ep.state(), ep.t.calls, ep.conn.lost)))
